@@ -1,6 +1,7 @@
 import RasnModel.Link.Chase
 import RasnModel.Lexer.Trivia
 import RasnModel.Props.C13
+import RasnModel.Lexer.Context
 /-
   C08 — compilation is total (the parts that are logic).
   * reference chasing with a visited list comes back within |env| + 1 steps, for every environment
@@ -136,5 +137,68 @@ theorem C08_old_chase_diverges : ∀ (f : Nat),
 theorem C08_scanner_total (s : List Char) (extra : Nat) :
     Lexer.Trivia.skip (s.length + extra) s = Lexer.Trivia.skipAll s :=
   Props.C13.skip_ge s _ (Nat.le_add_right _ _)
+
+/-! ### rendering an error: no slice of `until_next_unindented` leaves the text -/
+open Lexer.Input Lexer.Context
+
+/-- the scan reports an index inside the scanned text, and not the first one when it starts without a
+    preceding line feed -/
+theorem findUnindented_range : ∀ (l : Bytes) (prev : Bool) (i k : Nat), findUnindented l prev i = some k →
+    i ≤ k ∧ k < i + l.length ∧ (prev = false → i < k) := by
+  intro l
+  induction l with
+  | nil => intro prev i k h; simp [findUnindented] at h
+  | cons b bs ih =>
+    intro prev i k h
+    simp only [findUnindented] at h
+    split at h
+    · rename_i hc
+      cases h
+      refine ⟨Nat.le_refl _, by simp, ?_⟩
+      intro hp; rw [hp] at hc; simp at hc
+    · obtain ⟨h1, h2, _⟩ := ih _ _ _ h
+      exact ⟨by omega, by simp only [List.length_cons]; omega, fun _ => by omega⟩
+
+theorem boundaryUp_le (input : Bytes) (n : Nat) (h : n ≤ input.length) : boundaryUp input n ≤ input.length := by
+  unfold boundaryUp
+  have h1 : ((input.drop n).takeWhile isCont).length ≤ (input.drop n).length :=
+    (List.takeWhile_sublist isCont).length_le
+  have h2 : (input.drop n).length = input.length - n := List.length_drop
+  omega
+
+theorem boundaryDown_le (input : Bytes) : ∀ m, boundaryDown input m ≤ m := by
+  intro m
+  induction m with
+  | zero => simp [boundaryDown]
+  | succ m ih =>
+    simp only [boundaryDown]
+    split
+    · split
+      · omega
+      · omega
+    · omega
+
+/-- C08_excerpt_slices_in_range: for EVERY text and EVERY `at_least_until` / `fallback_len`, each index
+    `until_next_unindented` slices the text at lies inside the text: the adjusted start `a`, the end
+    `idx - 1 + a` of the main path (and `idx ≥ 1`, so `idx - 1` does not wrap), and the fallback length.
+    (`contextualize` itself slices at the context start offset and computes `offset - context start + 1`:
+    in range and without wrap-around exactly for reports with context start ≤ offset ≤ |text|, which is
+    what `C17_line_invariant` shows for every report the lexer can produce.) -/
+theorem C08_excerpt_slices_in_range (input : Bytes) (atLeast fb : Nat) :
+    let a := boundaryUp input (min atLeast input.length)
+    a ≤ input.length ∧
+    (∀ idx, findUnindented (input.drop a) false 0 = some idx → 1 ≤ idx ∧ idx - 1 + a ≤ input.length) ∧
+    boundaryDown input (min input.length (max fb a)) ≤ input.length := by
+  intro a
+  have ha : a ≤ input.length := boundaryUp_le input _ (Nat.min_le_right _ _)
+  refine ⟨ha, ?_, ?_⟩
+  · intro idx h
+    obtain ⟨_, h2, h3⟩ := findUnindented_range _ _ _ _ h
+    have h3 := h3 rfl
+    have hl : (input.drop a).length = input.length - a := List.length_drop
+    omega
+  · have := boundaryDown_le input (min input.length (max fb a))
+    have h2 : min input.length (max fb a) ≤ input.length := Nat.min_le_left _ _
+    omega
 
 end Props.C08
